@@ -66,6 +66,13 @@ pub const MUST_REJECT_ATTRS: &[(&str, &str)] = &[
     ("#[regex(\"a[^\\\\n]*\")]", "unbounded greedy dot without allow_greedy"),
     ("#[regex(\"a(?s:.)*b\")]", "unbounded greedy dot without allow_greedy"),
     ("#[regex(\"a.{2,}\")]", "unbounded greedy dot without allow_greedy"),
+    ("#[regex(r\"(a|b)\\1\")]", "unsupported regex feature (backreference)"),
+    ("#[regex(r\"(x)(y)\\2z\")]", "unsupported regex feature (backreference)"),
+    ("#[regex(r\"k\\7\")]", "unsupported regex feature (backreference / octal escape)"),
+    ("#[regex(\"a(?=b)\")]", "unsupported regex feature (look-ahead group)"),
+    ("#[regex(\"a(?!b)c\")]", "unsupported regex feature (negative look-ahead group)"),
+    ("#[regex(\"(?<=a)b\")]", "unsupported regex feature (look-behind group)"),
+    ("#[regex(r\"(?P<n>a)\\k<n>\")]", "unsupported regex feature (named backreference)"),
     ("#[regex(\"a(.)+\")]", "unbounded greedy dot (inside a capture group) without allow_greedy"),
     ("#[regex(\"a(?P<x>.)*b\")]", "unbounded greedy dot (inside a capture group) without allow_greedy"),
     ("#[regex(\"q((.))+\")]", "unbounded greedy dot (inside a capture group) without allow_greedy"),
